@@ -87,14 +87,11 @@ Definition incr_on_cluster (RQ : nat) (idle : bool) (now_ms : Z) (local : option
   | Value e => INew (value_of e + delta)
   end.
 
-(* what a remote holder answers to DM.GETENTRY *)
+(* what a remote holder answers to DM.GETENTRY: the copy it holds, expired or not (fix D48: getOnFragment used to
+   answer not-found for an expired copy, which let an older copy on another member win the read); the reader
+   checks the expiry of the winner only *)
 Definition remote_answer (now_ms : Z) (reachable : bool) (copy : option entry) : option entry :=
-  if reachable then
-    match copy with
-    | Some e => if is_expired now_ms e then None else Some e
-    | None => None
-    end
-  else None.
+  if reachable then copy else None.
 
 (* ------------------------------------------------------------------------------------------------------
    Member-count quorum: request dispatch.
